@@ -15,7 +15,7 @@ import (
 
 const verifDir = "/verif"
 
-var l1Props = map[string]bool{"C01": true, "C03": true, "C05": true, "C06": true, "C07": true, "C08": true, "C09": true, "C19": true}
+var l1Props = map[string]bool{"C01": true, "C03": true, "C05": true, "C06": true, "C07": true, "C08": true, "C09": true, "C12": true, "C19": true}
 
 func main() {
 	if len(os.Args) < 2 {
